@@ -1,4 +1,5 @@
-import CCVerif.Model.Graph
+import CCVerif.Model.GraphSpec
+import CCVerif.Lemmas.GraphA
 /-!
 # C14 — dependency-graph queries are exact for every graph and update history
 
@@ -8,41 +9,10 @@ Full statements are `def …_statement : Prop`; what is proved so far is a `theo
 -/
 namespace CCVerif.Graph
 
-/-! ## the mathematical digraph -/
+/-! ## the mathematical digraph
 
-/-- reflexive-transitive reachability along edges of `E` -/
-inductive Reach (E : List (Nat × Nat)) : Nat → Nat → Prop
-  | refl (a : Nat) : Reach E a a
-  | step {a b c : Nat} : (a, b) ∈ E → Reach E b c → Reach E a c
-
-/-- reachability by a path of length ≥ 1 -/
-def ReachPlus (E : List (Nat × Nat)) (a c : Nat) : Prop := ∃ b, (a, b) ∈ E ∧ Reach E b c
-
-def Cyclic (E : List (Nat × Nat)) : Prop := ∃ v, ReachPlus E v v
-
-/-- `a` and `b` lie on a common cycle (same SCC, and that SCC contains a cycle) -/
-def SameLoop (E : List (Nat × Nat)) (a b : Nat) : Prop := ReachPlus E a b ∧ ReachPlus E b a
-
-/-- abstract effect of an update on `(V, E)` (as sets) -/
-def specV (V : List Nat) : Op → List Nat
-  | .addItem u => u :: V
-  | .eraseItem u => V.filter (· ≠ u)
-  | .addConnection s d => s :: d :: V
-  | .setItemInputs u srcs => u :: (srcs ++ V)
-  | .clear => []
-
-def specE (E : List (Nat × Nat)) : Op → List (Nat × Nat)
-  | .addItem _ => E
-  | .eraseItem u => E.filter (fun e => e.1 ≠ u ∧ e.2 ≠ u)
-  | .addConnection s d => (s, d) :: E
-  | .setItemInputs u srcs => srcs.map (·, u) ++ E.filter (fun e => e.2 ≠ u)
-  | .clear => []
-
-/-- the argument of `SetItemInputs` is a `std::unordered_set`: no duplicates -/
-def WfOp : Op → Prop
-  | .setItemInputs _ srcs => srcs.Nodup
-  | _ => True
-def WfOps (ops : List Op) : Prop := ∀ op ∈ ops, WfOp op
+`Reach`, `ReachPlus`, `Cyclic`, `SameLoop`, `specV`, `specE`, `WfOp`, `WfOps` live in
+`CCVerif/Model/GraphSpec.lean` (namespace `CCVerif.Graph`, unchanged). -/
 
 /-! ## full statements -/
 
@@ -64,8 +34,10 @@ def simple_queries_statement : Prop :=
     (connectionExists (run ops) a b = true ↔ (a, b) ∈ edges (run ops)) ∧
     (∀ s, s ∈ inputsFor (run ops) a ↔ (s, a) ∈ edges (run ops))
 
+/-- the argument of `ExpandOutputs` / `ExpandInputs` is a `std::unordered_set` (`S.Nodup`);
+for a list with duplicates the model's fuel `g.length + 1` would not suffice -/
 def expand_statement : Prop :=
-  ∀ (ops : List Op) (S : List Nat) (u : Nat), WfOps ops →
+  ∀ (ops : List Op) (S : List Nat) (u : Nat), WfOps ops → S.Nodup →
     (u ∈ expandOutputs (run ops) S ↔ ∃ s ∈ S, s ∈ liveUids (run ops) ∧ Reach (edges (run ops)) s u) ∧
     (u ∈ expandInputs (run ops) S ↔ ∃ s ∈ S, s ∈ liveUids (run ops) ∧ Reach (edges (run ops)) u s)
 
@@ -95,6 +67,64 @@ def loopGroups_statement : Prop :=
     (∀ grp ∈ getAllLoopsItems (run ops), grp ≠ [] ∧ grp.Nodup)
 
 /-! ## proved -/
+
+/-- History used for the non-vacuity examples: a self-loop (1→1), an erase followed by a
+re-insertion of the same uid (2), and a `SetItemInputs`. -/
+def histA : List Op :=
+  [.addConnection 1 1, .addConnection 1 2, .addConnection 2 3, .eraseItem 2, .addItem 2,
+   .setItemInputs 3 [1, 2], .addConnection 3 1]
+
+private theorem histA_wf : WfOps histA := by
+  intro op hop
+  simp only [histA, List.mem_cons, List.not_mem_nil, or_false] at hop
+  rcases hop with rfl | rfl | rfl | rfl | rfl | rfl | rfl <;> simp [WfOp]
+
+/-- the representation invariant holds after every well-formed history -/
+theorem inv_of_history (ops : List Op) (hw : WfOps ops) : Inv (run ops) := inv_run hw
+
+/-- Every history refines the abstract digraph (vertex set and edge set of each update). -/
+theorem history_refines : history_refines_statement := history_refines_run
+
+example : WfOp (.eraseItem 1) ∧
+    liveUids (applyOp (run histA) (.eraseItem 1)) = [3, 2] ∧
+    edges (applyOp (run histA) (.eraseItem 1)) = [(2, 3)] ∧
+    specE (edges (run histA)) (.eraseItem 1) = [(2, 3)] :=
+  ⟨trivial, by decide, by decide, by decide⟩
+example := history_refines histA (.eraseItem 1) histA_wf trivial
+
+/-- No duplicate vertices or edges; the two counters are the cardinalities. -/
+theorem counts : counts_statement := counts_run
+
+example : liveUids (run histA) = [1, 3, 2] ∧ edges (run histA) = [(1, 1), (1, 3), (3, 1), (2, 3)] ∧
+    itemsCount (run histA) = 3 ∧ connectionsCount (run histA) = 4 := by decide
+example := counts histA histA_wf
+
+/-- `Contains`, `ConnectionExists`, `InputsFor` agree with the abstract digraph. -/
+theorem simple_queries : simple_queries_statement := simple_queries_run
+
+example : contains (run histA) 2 = true ∧ contains (run histA) 7 = false ∧
+    connectionExists (run histA) 1 1 = true ∧ connectionExists (run histA) 1 2 = false ∧
+    inputsFor (run histA) 3 = [1, 2] ∧ inputsFor (run histA) 2 = [] := by decide
+example := simple_queries histA 3 1 histA_wf
+
+/-- `ExpandOutputs` / `ExpandInputs` compute exactly the (reflexive-transitive) closure of the
+live members of a duplicate-free input. -/
+theorem expand : expand_statement := expand_run
+
+example : expandOutputs (run histA) [2, 9] = [2, 3, 1] ∧ expandInputs (run histA) [2, 9] = [2] ∧
+    expandInputs (run histA) [1] = [1, 3, 2] := by decide
+example : Reach (edges (run histA)) 2 1 := by
+  have : edges (run histA) = [(1, 1), (1, 3), (3, 1), (2, 3)] := by decide
+  rw [this]
+  exact .step (b := 3) (by simp) (.step (b := 1) (by simp) (.refl 1))
+example := expand histA [2, 9] 1 histA_wf (by decide)
+
+/-- `IsReachableFrom(dest, source)` for `source ≠ dest` is reachability by a non-empty path. -/
+theorem isReachableFrom_spec : isReachableFrom_statement := isReachableFrom_run
+
+example : isReachableFrom (run histA) 1 2 = true ∧ isReachableFrom (run histA) 2 1 = false ∧
+    isReachableFrom (run histA) 3 1 = true := by decide
+example := isReachableFrom_spec histA 1 2 histA_wf (by decide)
 
 /-- `Sort` is by definition the restriction of `TopologicalOrder` (empty input ⇒ empty). -/
 theorem sort_spec : sort_statement := by
